@@ -384,6 +384,34 @@ fn cmd_names(maxlen: usize) -> i32 {
             if idx.len() > maxlen { break; }
         }
     }
+    // identity: names that differ in project or id denote different resources (as values, as hash-map keys, in the managers)
+    let parts = ["a", "b", "ab", "a-b", "é"];
+    let tm = TopicManager::new();
+    let mut created: Vec<(String, String)> = Vec::new();
+    for p1 in parts { for t1 in parts {
+        for p2 in parts { for t2 in parts {
+            let same = p1 == p2 && t1 == t2;
+            if (TopicName::new(p1, t1) == TopicName::new(p2, t2)) != same || (SubscriptionName::new(p1, t1) == SubscriptionName::new(p2, t2)) != same {
+                println!("WITNESS {{\"kind\":\"name-identity\",\"property\":\"C18\",\"a\":[{:?},{:?}],\"b\":[{:?},{:?}],\"observed\":\"names compare {} although (project, id) pairs are {}\"}}", p1, t1, p2, t2, if same { "different" } else { "equal" }, if same { "equal" } else { "different" });
+                return 1;
+            }
+        } }
+        let r = tm.create_topic(TopicName::new(p1, t1));
+        if r.is_err() {
+            println!("WITNESS {{\"kind\":\"name-identity\",\"property\":\"C18\",\"a\":[{:?},{:?}],\"observed\":\"creating a topic under a new (project, id) pair fails: it aliases one of {:?}\"}}", p1, t1, created);
+            return 1;
+        }
+        created.push((p1.to_string(), t1.to_string()));
+    } }
+    for (p1, t1) in created.iter() {
+        match tm.get_topic(&TopicName::new(p1, t1)) {
+            Ok(t) if t.name.to_string() == format!("projects/{}/topics/{}", p1, t1) => {}
+            other => {
+                println!("WITNESS {{\"kind\":\"name-identity\",\"property\":\"C18\",\"a\":[{:?},{:?}],\"observed\":\"lookup returns {:?}\"}}", p1, t1, other.map(|t| t.name.to_string()).ok());
+                return 1;
+            }
+        }
+    }
     println!("NO-WITNESS strings={}", n);
     0
 }
